@@ -27,6 +27,7 @@ CONSTANTS Nodes,         \* node names; the address order is the string order
           StableIds,     \* TRUE: NodeID is configured (same id after a restart); FALSE: a fresh id per process
           FD,            \* TRUE: failure detection on (ages), FALSE: off
           MaxAge,        \* FD: age at which a member is removed
+          BumpAdvancesVersion, \* TRUE: a re-joining node increments its version-vector entry again after raising its generation
           QuietTicks     \* TRUE: timers fire only when nothing is in flight (timers are slow compared with delivery)
 
 None == [gen |-> 0, lc |-> 0, st |-> "none", ts |-> 0, at |-> "none"]
@@ -157,7 +158,9 @@ Join(n, s) ==
            prev == jv2.mem[id]
            bumped == prev.gen >= up.gen
            me2 == IF bumped THEN [up EXCEPT !.gen = prev.gen + 1, !.lc = prev.lc + 1, !.ts = up.ts + 0] ELSE up
-           jv3 == IF bumped THEN AddMember(jv2, id, me2) ELSE jv2
+           \* BumpAdvancesVersion: the generation bump is recorded in the version vector (the increment made before the merge
+           \* is absorbed by the counter the previous incarnation left behind)
+           jv3 == IF bumped THEN (IF BumpAdvancesVersion THEN Inc(AddMember(jv2, id, me2), id) ELSE AddMember(jv2, id, me2)) ELSE jv2
            jlv == PrunedLast(n, jv3)
        IN /\ view' = [view EXCEPT ![s] = sv1, ![n] = jv3]
           /\ proc' = [proc EXCEPT ![n].run = "up", ![n].self = me2]
